@@ -327,8 +327,9 @@ template <class Router, class... Args> struct Runner {
                 // a pattern derived from an existing observer's key: per level either the key's own name or a regex
                 if (obs.empty()) { done = false; break; }
                 Pattern p; unsigned ub = (unsigned)o.b;
-                for (int n : obs[(unsigned)o.a % obs.size()].key) {
-                    bool rx = ((unsigned)o.c >> p.size()) & 1;
+                const Key &bk = obs[(unsigned)o.a % obs.size()].key;
+                for (int n : bk) {
+                    bool rx = (((unsigned)o.c >> p.size()) & 1) || (((unsigned)o.c & 8) && p.size() + 1 == bk.size());   // bit 3: the last level is a regex (reaches the siblings)
                     static const int broad[16] = {0, 0, 0, 0, 1, 1, 1, 3, 3, 4, 4, 2, 6, 7, 5, 9};   // biased towards regexes that match several names
                     p.push_back(rx ? Level{true, broad[ub % 16]} : Level{false, n});
                     ub /= 11;
